@@ -95,9 +95,8 @@ def renderIndex (t : Table) (ix : Index) : R Str := do
   let optStr := if opts.isEmpty then [] else lit " [" ++ joinWith (lit ", ") opts ++ [']']
   pure (optComment ix.comment ++ subj ++ optStr)
 
-/-- `render_table`. -/
-def renderTable (db : Db) (ti : Nat) : R Str := do
-  let t ← getD? db.tables ti "table position"
+/-- `render_table` for table `t` standing at position `ti` of the database. -/
+def renderTableBody (db : Db) (ti : Nat) (t : Table) : R Str := do
   let header := lit "Table " ++ qualName t.schema t.name ++ [' ']
     ++ (if truthy t.alias then lit "as \"" ++ t.alias.getD [] ++ lit "\" " else [])
     ++ (if truthy t.headerColor then lit "[headercolor: " ++ t.headerColor.getD [] ++ lit "] " else [])
@@ -116,6 +115,11 @@ def renderTable (db : Db) (ti : Nat) : R Str := do
       let is ← t.indexes.mapM (renderIndex t)
       pure (lit "\n    indexes {\n" ++ indent8 (joinNL is) ++ ['\n'] ++ lit "    }\n")
   pure (optComment t.comment ++ header ++ lit "{\n" ++ colsStr ++ props ++ note ++ idx ++ ['}'])
+
+/-- `render_table`. -/
+def renderTable (db : Db) (ti : Nat) : R Str := do
+  let t ← getD? db.tables ti "table position"
+  renderTableBody db ti t
 
 /-- `render_enum` / `render_enum_item`. -/
 def renderEnumItem (i : EnumItem) : Str :=
